@@ -155,18 +155,23 @@ func (w *waitCloser) Error() (err error) {
 }
 
 func (w *waitCloser) Close(err error) bool {
-	if w.closed.CompareAndSwap(false, true) {
-		w.Lock()
-		w.err = err
+	// the error is recorded BEFORE the close becomes visible : a caller that reads IsClosed() == true
+	// and then Error() (sendAof : sendCmdsBatch returns nil on a closed run, then Close(nil), then
+	// Error()) must not find the error of the close that won still unset and report success
+	w.Lock()
+	if w.closed.Load() {
 		w.Unlock()
-		if w.stopFun != nil {
-			w.stopFun(err)
-		}
-		w.cancel()
-		return true
+		return false
 	}
+	w.err = err
+	w.closed.Store(true)
+	w.Unlock()
 
-	return false
+	if w.stopFun != nil {
+		w.stopFun(err)
+	}
+	w.cancel()
+	return true
 }
 
 func (w *waitCloser) Context() context.Context {
